@@ -13,11 +13,12 @@ CHECKS = {
         "level": "exploration",
         "rule": "programs: statement snippets, composed corpus programs (as scripts and as modules), failing programs, 8 module"
                 " graphs (chains, diamond with re-exports / export * / export * as, default + namespace imports, live bindings,"
-                " missing / throwing / syntactically broken dependencies), 11 order programs with a scripted host (incl. "
-                "import-then-re-export of a native binding); each driven through prepare+step, eval, step with interleaved "
-                "read-only host calls, C API tsrun_step loop and C API tsrun_run, comparing the full conversation trace (import"
-                " requests, order ids and payloads, result, export table, exported-function calls, console), followed on the "
-                "same interpreter by an observer script (typeof of every name the program imported) and by a second run of the "
+                " missing / throwing / syntactically broken dependencies), 11 order programs and composed programs with dozens "
+                "of orders (C07's generated family, as scripts and as modules) with a scripted host (incl. import-then-re-"
+                "export of a native binding); each driven through prepare+step, eval, step with interleaved read-only host "
+                "calls, C API tsrun_step loop and C API tsrun_run, comparing the full conversation trace (import requests, "
+                "order ids and payloads, result, export table, exported-function calls, console), followed on the same "
+                "interpreter by an observer script (typeof of every name the program imported) and by a second run of the "
                 "program, whose traces are compared too. 8 module texts are compared across the roles main / provided "
                 "dependency / internal source module. Every comparison is a distinct (program, entry point) or (module, role) "
                 "pair",
@@ -34,16 +35,19 @@ CHECKS = {
         "engines": NATIVE,
         "golden": "C04.tsv",
         "level": "exploration",
-        "rule": "declarations printed twice from one abstract description, as TypeScript and as the JavaScript the TypeScript compiler "
-                "emits: ALL valid enum shapes of up to 4 members over the member-kind alphabet {auto, numeric, negative, "
-                "fractional, duplicate value, constant expression over the previous member, computed, string, quoted name}, 84 merged "
-                "enums (2 and 3 declaration blocks, at top level and in a function), const enums (inlined uses), 22 namespace shapes "
-                "(exported / local consts, lets, functions, classes, enums, nested, local and merged namespaces, references rewritten to "
-                "N.x) and seeded random namespace trees, merging of namespaces with functions, classes and enums, dotted and `module` "
-                "namespaces, enums and namespaces inside functions, classes with parameter properties (every modifier alone, all ordered "
-                "pairs, longer lists with defaults referring to earlier parameters and to this, derived classes) and abstract classes; "
-                "each followed by one observer (keys in order and sorted, every member forwards and backwards, in, JSON.stringify, "
-                "values, calls, typeof of hidden names). Every (declaration, context) pair is distinct; all are non-trivial",
+        "rule": "declarations printed twice from one abstract description, as TypeScript and as the JavaScript the TypeScript "
+                "compiler emits: ALL valid enum shapes of up to 4 members over the member-kind alphabet {auto, numeric, "
+                "negative, fractional, duplicate value, constant expression over the previous member, computed, string, quoted "
+                "name}, a constant-expression matrix (11 binary operators x 16 x 16 operand values around the int32 / uint32 / "
+                "2^53 boundaries, as literals and as references to earlier members, followed by an auto member, ~ and unary "
+                "minus; member values only), 84 merged enums (2 and 3 declaration blocks, at top level and in a function), "
+                "const enums (inlined uses), 22 namespace shapes (exported / local consts, lets, functions, classes, enums, "
+                "nested, local and merged namespaces, references rewritten to N.x) and seeded random namespace trees, merging "
+                "of namespaces with functions, classes and enums, dotted and `module` namespaces, enums and namespaces inside "
+                "functions, classes with parameter properties (every modifier alone, all ordered pairs, longer lists with "
+                "defaults referring to earlier parameters and to this, derived classes) and abstract classes; each followed by "
+                "one observer (keys in order and sorted, every member forwards and backwards, in, JSON.stringify, values, "
+                "calls, typeof of hidden names). Every (declaration, context) pair is distinct; all are non-trivial",
         "exhaustive": "enum shapes up to the stated length; modifier pairs of parameter properties",
         "floor": {"quick": 4000, "thorough": 7000},
         "technique": "runtime monitoring: translation-pair oracle (TypeScript form vs its specified JavaScript emit on tsrun, and vs the "
@@ -195,11 +199,14 @@ CHECKS = {
                 "conditional and logical operands; compound assignment; switch; closures capturing block-scoped variables "
                 "across the await; error responses; caller-frame temporaries live across a callee's suspension; arguments "
                 "objects; finally blocks with pending completions at several depths; iterators, labels, private fields, getters"
-                " / setters as callees) and 11 programs with several host promises outstanding, each run under 10-36 host "
-                "policies (immediate answers, answers by a promise settled later, alternating, 1-3 spurious steps, "
-                "oldest/newest-first, batched and shuffled settlement, collect() after every host action, GC thresholds 0/1/3)."
-                " A run is non-trivial when the interpreter suspended to the host at least once; (program, policy) pairs are "
-                "distinct by construction",
+                " / setters as callees) and 11 programs with several host promises outstanding, plus composed corpus programs "
+                "(loops, switch, try / finally, destructuring, classes, generators, closures) turned into `async function main`"
+                " with their numeric literals read from the host (`(await order({k: lit / 2}))`; three variants per program: "
+                "every site, every third site, one site; quick: 48 programs of shard VERIF_SEED mod 32, thorough: 120 programs "
+                "of every shard), each run under 10-36 host policies (immediate answers, answers by a promise settled later, "
+                "alternating, 1-3 spurious steps, oldest/newest-first, batched and shuffled settlement, collect() after every "
+                "host action, GC thresholds 0/1/3). A run is non-trivial when the interpreter suspended to the host at least "
+                "once; (program, policy) pairs are distinct by construction",
         "exhaustive": "every await-position class of the catalogue x the enumerated policies",
         "floor": {"quick": 400, "thorough": 800},
         "technique": "runtime monitoring: metamorphic oracle (in-program synchronous stand-in vs real host suspension under many host "
@@ -222,7 +229,8 @@ CHECKS = {
                 "later (8 masks) x settlement order (oldest/newest first, shuffles) x one-at-a-time vs batched settlement x 0/2"
                 " spurious steps x host misuse (none / answer to an unknown id / late duplicate answer / answer ahead of "
                 "issue), at GC thresholds 1 and default, with collect() after host actions; plus the 96 await/concurrency "
-                "programs of C07 under a reduced policy set. A run is non-trivial when at least one suspension was observed; "
+                "programs of C07 and composed programs with dozens of orders per run (C07's generated family; quick 24, "
+                "thorough 32 x 40) under a reduced policy set. A run is non-trivial when at least one suspension was observed; "
                 "(program, policy) pairs are distinct by construction",
         "exhaustive": "the policy product above for every program with <= 3 deferrable orders",
         "floor": {"quick": 4000, "thorough": 7000},
@@ -306,13 +314,18 @@ CHECKS = {
     "C12": {
         "engines": NATIVE,
         "level": "exploration",
-        "rule": "programs that expose iteration orders and identity-keyed containers (objects with 0..40 keys incl. delete/re-add, "
-                "for-in, JSON.stringify, Map/Set keyed by objects and functions, Symbol.for registry, sort stability, promises, "
-                "injected time/random providers, console) + statement snippets + holder programs + composed corpus; for each the solo "
-                "trace (terminal step result, value, log, step count) is compared with a repetition in the same process, runs in two "
-                "freshly exec'd processes, step-wise interleavings with 1-3 other interpreters in one thread (round-robin, random "
-                "bursts, instances created/failed/dropped in between) and runs on 4 concurrent threads. Every comparison counts as "
-                "non-trivial; (program, variant) pairs are distinct by construction",
+        "rule": "programs that expose iteration orders and identity-keyed containers (objects with 0..40 keys incl. delete/re-"
+                "add, for-in, JSON.stringify, Map/Set keyed by objects and functions, Symbol.for registry, sort stability, "
+                "walks of 50..2000 fresh objects through JSON.stringify / join incl. a repaired cycle, promises, injected "
+                "time/random providers, console) + statement snippets + holder programs + composed corpus; for each the solo "
+                "trace (terminal step result, value, log, step count) is compared with a repetition in the same process, runs "
+                "in two freshly exec'd processes, step-wise interleavings with 1-3 other interpreters in one thread (round-"
+                "robin, random bursts, instances created/failed/dropped in between) runs on 4 concurrent threads, and runs "
+                "after other interpreters lived and died on the same thread (3 rounds of 16 hostile predecessors that leave "
+                "built-ins through failure and early-exit paths - cyclic JSON caught / uncaught / host-side, throwing getters, "
+                "toJSON, replacers, revivers, comparators, callbacks, proxy traps, coercion hooks, deep recursion, abandoned "
+                "generators and promises - some kept alive, most dropped). Every comparison counts as non-trivial; (program, "
+                "variant) pairs are distinct by construction",
         "floor": {"quick": 3000, "thorough": 20000},
         "technique": "runtime monitoring: trace-equality oracle across repetitions, process restarts, step interleavings and threads",
         "level_text": "Identical source + identical injected providers must give identical step-by-step traces regardless of process, "
